@@ -137,6 +137,12 @@ pub fn parse_bic(input: &str) -> Result<String, ParseError> {
         });
     }
 
+    if !input.is_ascii() {
+        return Err(ParseError::InvalidFormat {
+            message: "BIC must contain only ASCII letters and digits".to_string(),
+        });
+    }
+
     // First 4 chars: Bank code (letters)
     if !input[0..4].chars().all(|c| c.is_alphabetic()) {
         return Err(ParseError::InvalidFormat {
